@@ -92,7 +92,7 @@ func main() {
 		"inputs whose one-shot run ends in an error are compared on status and output only (the property exempts the consumed count after an error)",
 		"outputs above 8 KiB and pixel buffers are compared by length and a 64-bit hash computed in the server, smaller outputs byte for byte",
 		"token streams are compared in the normal form described in checks/c05/tokens.go (doc/note/tokens.md does not promise where runs of filler or of copyable string bytes are cut into tokens)",
-		"plain (-O2) servers run every script; ASan+UBSan servers re-run the stepped (1/2/3/5/16-byte) scripts of every input (quick: inputs up to 4 KiB) and the single source splits of inputs up to 64 bytes (quick: of every other such input); a sanitizer report that the one-shot run of the same input also triggers is counted, not reported (C03)",
+		"plain (-O2) servers run every script; ASan+UBSan servers re-run the stepped (1/2/3/5/16-byte) scripts of every input (quick: inputs up to 4 KiB, thorough: up to 16 KiB) and the single source splits of inputs up to 64 bytes (quick: of every other such input); a sanitizer report that the one-shot run of the same input also triggers is counted, not reported (C03)",
 		"part (a) of the property (generated coroutines against the reference interpreter) is not part of this build",
 	})
 }
